@@ -89,6 +89,26 @@ def run(ctx):
         ctx.case(("mask", t), nontrivial=len(t) >= 2, sample={"lens": list(t), "mask": [int(x) for x in got]} if t in ((3, 2, 4),) else None)
     ctx.gen_compare("label_switching_cost_template", gen_cases)
     ctx.count("mask_tuples", len(tuples))
+    # series with NO full window (exactly W-1 rows: stacked length 0) among the others.  Whatever the helper does with
+    # them, a pair of consecutive points of ONE series must keep its switching cost and a pair straddling two series
+    # must lose it; the final slot prices no pair and is not constrained.
+    if ctx.replay is None or "lens_with_empty" in (ctx.replay or {}):
+        ztuples = [tuple(ctx.replay["lens_with_empty"])] if ctx.replay is not None else \
+            [t for n in range(2, 5) for t in itertools.product(range(0, 4), repeat=n) if 0 in t and sum(t) >= 2]
+        for t in ztuples:
+            try:
+                got = [float(x) for x in dp.label_switching_cost_template(list(t))]
+            except Exception:
+                ctx.count("mask_tuples_with_empty_series_raised")
+                continue
+            owner = [si for si, L in enumerate(t) for _ in range(L)]
+            ok = len(got) == sum(t) and all(got[i] == (1.0 if owner[i] == owner[i + 1] else 0.0) for i in range(sum(t) - 1))
+            if not ok:
+                ctx.violation("impl-violation",
+                              f"mask for stacked lengths {t} (a series without a full window among them): {got}; a within-series "
+                              "pair lost its switching cost or a boundary pair kept it", {"lens_with_empty": list(t)},
+                              {"site": "mask-helper"})
+            ctx.count("mask_tuples_with_empty_series")
 
     # ---------------- (b) joint runs
     completed = 0
